@@ -13,6 +13,14 @@ effect.  The specification side of clear_incompatible (lean/PM/KeptChildren.lean
 filter `keptChildren` + fillers; theorems clearIncompatible_spec / setBlockType_spec) is tied through the
 `retypedChildren` request: every completed call of the real clear_incompatible (inside set_block_type and called
 directly on random nodes and types) is recorded, and the children it left must be exactly what the function says.
+The same planners with the Fitter *model* plugged in (lean/PM/TypePlanFit.lean: `replaceStep` of lean/PM/Fitter.lean
+instead of recorded answers; bridge theorems `…F_agrees` / `…F_eq_of_fits`) are tied exactly on the bundled-family
+schemas through `planNodeOpF` (no recorded answers sent: step list, final document, number of consultations).  The
+theorems about runs that do consult the Fitter are evaluated on every real clear_incompatible call on a node with
+content: `fillRequest` (fill_fitsTrivially_iff: the Fitter is consulted iff the walk does not end at a valid end, there
+are fillers, and the node as it is — old type, old children — cannot take them behind its last child) and `clearKeeps`
+(clearIncompatibleF_keeps: the result begins with everything before the node, its open token and exactly keptChildren;
+text and leaf content behind the node survive).
 Search: per-token oracle computed from to_json(): qualifying inline tokens inside the range carry
 the mark (documented add rule), matching marks are gone after removal, text/structure and marks
 outside the range are unchanged, node-level edits change only the addressed node, retyping keeps
@@ -59,13 +67,28 @@ _CLEAR_ON = [False]
 _orig_clear = Transform.clear_incompatible
 
 
+# A second log keeps, for every call (completed or not), what the theorems about runs that do consult the Fitter speak
+# about: the documents before and after, the position, the number of Fitter calls and the steps recorded meanwhile
+# (clearIncompatibleF_keeps / fill_fitsTrivially_iff of lean/Props/C13.lean; requests `clearKeeps`, `fillRequest`).
+_CLEAR_LOG2 = []
+
+
 def _logged_clear(self, pos, parent_type, match=None):
     if not _CLEAR_ON[0]:
         return _orig_clear(self, pos, parent_type, match)
     before = gen.safe_node_at(self.doc, pos)
+    doc_before, nsteps = self.doc, len(self.steps)
     nfit = len(_FIT_LOG)
-    r = _orig_clear(self, pos, parent_type, match)
+    try:
+        r = _orig_clear(self, pos, parent_type, match)
+    except core.Timeout:
+        raise
+    except Exception:  # noqa: BLE001
+        _CLEAR_LOG2.append((before, parent_type, match, doc_before, pos, None, len(_FIT_LOG) - nfit, None))
+        raise
     _CLEAR_LOG.append((before, parent_type, match, gen.safe_node_at(self.doc, pos), len(_FIT_LOG) - nfit))
+    _CLEAR_LOG2.append((before, parent_type, match, doc_before, pos, self.doc, len(_FIT_LOG) - nfit,
+                        list(self.steps[nsteps:])))
     return r
 
 
@@ -230,6 +253,78 @@ def run(ctx):
                     for t_ in tags:
                         ctx.count(f"kept_tie:{t_}")
                 continue
+            if isinstance(exp, tuple) and exp[0] == "plain":
+                # setBlockTypeF_plain_noask on real runs: a plain target type (model predicate `plainType`) never makes
+                # set_block_type consult the Fitter; the one-state types the oracle calls `plain_inline` are plain
+                _, py_plain, nfit = exp
+                got = out.get("ok")
+                if not isinstance(got, bool) or (py_plain and not got):
+                    ctx.mismatch("plainType", replay, py_plain, out)
+                elif got and nfit:
+                    ctx.mismatch("plainType: Fitter consulted although the target type is plain", replay, 0, nfit)
+                else:
+                    ctx.count("plain_type_tie:" + ("plain" if got else "needy"))
+                continue
+            if isinstance(exp, tuple) and exp[0] == "fillreq":
+                # when is the Fitter consulted by clear_incompatible?  (fill_fitsTrivially_iff: iff the walk does not end at
+                # a valid end, there are fillers, and the node as it is — old type, old children — cannot take them)
+                _, nfit, completed = exp
+                got = out.get("ok")
+                if not isinstance(got, list):
+                    ctx.mismatch("fillRequest", replay, "an answer", out)
+                    continue
+                predicted = (not got[0]) and got[1] > 0 and got[2] is False
+                if completed or nfit:
+                    if predicted != (nfit > 0):
+                        ctx.mismatch("fillRequest: Fitter consulted", replay, nfit, got)
+                    else:
+                        ctx.count("fill_request_tie")
+                        ctx.count("fill_request_tie:" + ("valid_end" if got[0] else "no_fillers" if got[1] == 0 else
+                                                         "fits_trivially" if got[2] else "fitter_consulted"))
+                continue
+            if isinstance(exp, tuple) and exp[0] == "keeps":
+                # clearIncompatibleF_keeps on the real documents: prefix (always), text and content behind (no replace-around)
+                _, around, nfit = exp
+                got = out.get("ok")
+                if not isinstance(got, list) or got[0] is not True or (not around and (got[1] is not True or got[2] is not True)):
+                    ctx.mismatch("clearKeeps", replay, [True, True, True], out)
+                else:
+                    ctx.count("keeps_tie")
+                    if nfit:
+                        ctx.count("keeps_tie:fitter_consulted")
+                    if around:
+                        ctx.count("keeps_tie:replace_around(prefix only)")
+                continue
+            if isinstance(exp, tuple) and exp[0] == "planF":
+                # exact tie of a planner with the Fitter model plugged in (no recorded answers): step list, final document
+                # and the number of times the Fitter was consulted
+                _, name, st, steps, final, nfit, fit_raised = exp
+                ctx.count(f"planF_tie:{name}")
+                if nfit:
+                    ctx.count(f"planF_tie_fitter_consulted:{name}")
+                if st == "ok":
+                    got = out.get("ok")
+                    if not isinstance(got, list) or got[0] != steps:
+                        ctx.mismatch(f"planF({name}): step list", replay, steps, out)
+                    elif got[1] != final:
+                        ctx.mismatch(f"planF({name}): document after the planned steps", replay, "recorded document", "different document")
+                    elif got[2] != nfit:
+                        ctx.mismatch(f"planF({name}): Fitter consultations", replay, nfit, got[2])
+                    else:
+                        ctx.count(f"planF_tie_ok:{name}")
+                        if nfit:
+                            ctx.count(f"planF_tie_ok_fitter_consulted:{name}")
+                            if any(s_[0] == "replaceAround" and not s_[-1] for s_ in steps):
+                                ctx.count(f"planF_tie_ok_fitted_around:{name}")
+                else:
+                    # an exception out of Fitter.fit itself has no class in the Fitter model ("raises"); everything else
+                    # (argument checks, fits_trivially, a step that does not apply) keeps its class
+                    want = "raises" if fit_raised else st
+                    if out.get("err") != want:
+                        ctx.mismatch(f"planF({name}): outcome", replay, want, out)
+                    else:
+                        ctx.count(f"planF_tie_err:{name}:{want}")
+                continue
             if isinstance(exp, tuple) and exp[0] == "plan":
                 # exact tie of a planner: the emitted step list (in order) and the outcome of applying it
                 _, name, st, steps, final = exp
@@ -329,6 +424,23 @@ def run(ctx):
             reqs.append({"op": "retypedChildren", "s": info.lean_id, "node": info.node(before), "type": info.nid[pty.name]})
             metas.append((dict(replay, clear_incompatible={"node": before.to_json(), "type": pty.name}), ("kept", new_kids, tags)))
 
+    def keeps_requests(clear_log2, replay):
+        """for every clear_incompatible call on a node with content (match=None): the consultation prediction, and — for
+        completed calls — the conclusion of clearIncompatibleF_keeps on the documents before / after"""
+        from prosemirror.transform.replace_step import ReplaceAroundStep
+        for (before, pty, match, doc_before, pos, doc_after, nfit, steps) in clear_log2:
+            if before is None or before.is_leaf or match is not None:
+                continue
+            rp = dict(replay, clear_incompatible={"pos": pos, "node": before.to_json(), "type": pty.name})
+            reqs.append({"op": "fillRequest", "s": info.lean_id, "node": info.node(before), "type": info.nid[pty.name]})
+            metas.append((rp, ("fillreq", nfit, doc_after is not None)))
+            if doc_after is None:
+                continue
+            around = any(isinstance(s_, ReplaceAroundStep) for s_ in steps)
+            reqs.append({"op": "clearKeeps", "s": info.lean_id, "doc": info.node(doc_before), "after": info.node(doc_after),
+                         "pos": pos, "type": info.nid[pty.name]})
+            metas.append((rp, ("keeps", around, nfit)))
+
     fam = schemas.family()
     kinds = ["add_mark", "remove_mark", "add_node_mark", "remove_node_mark", "set_node_attribute",
              "set_block_type", "set_node_markup"]
@@ -354,6 +466,31 @@ def run(ctx):
                 d0, f0, t0, m0 = case
                 planned.append((d0, "add_mark", [f0, t0, m0], (lambda f0, t0, m0: lambda tr: tr.add_mark(f0, t0, m0))(f0, t0, m0)))
                 ctx.count("aimed_exclusion_cases")
+        needy = [x for x in schema.nodes.values() if x.is_textblock and not x.content_match.valid_end]
+        if needy:
+            # aimed: retyping whole documents to a textblock type whose content must not be empty — an emptied or empty block
+            # gets fillers, and where the block's old type cannot hold them the Fitter places them (private random stream)
+            rng_needy = __import__("random").Random(ctx.seed * 7919 + si)
+            for d0 in docs[:ctx.budget(4, 8)]:
+                t0 = rng_needy.choice(needy)
+                a0 = gen.gen_attrs(rng_needy, t0)
+                planned.append((d0, "set_block_type", [0, d0.content.size, t0, a0],
+                                (lambda e0, t0, a0: lambda tr: tr.set_block_type(0, e0, t0, a0))(d0.content.size, t0, a0)))
+                ctx.count("aimed_needy_retype_cases")
+            for x0 in [x for x in schema.nodes.values() if x.is_textblock][:6]:
+                # … and a document holding one (filled-to-valid) block of each textblock type
+                try:
+                    b0 = x0.create_and_fill()
+                    d0 = schema.top_node_type.create_checked(None, [b0]) if b0 is not None else None
+                except Exception:  # noqa: BLE001
+                    d0 = None
+                if d0 is None:
+                    continue
+                t0 = rng_needy.choice(needy)
+                a0 = gen.gen_attrs(rng_needy, t0)
+                planned.append((d0, "set_block_type", [0, d0.content.size, t0, a0],
+                                (lambda e0, t0, a0: lambda tr: tr.set_block_type(0, e0, t0, a0))(d0.content.size, t0, a0)))
+                ctx.count("aimed_needy_retype_cases")
         for d in docs:
             # clear_incompatible called directly on any node and any type (the operation is public; set_block_type only
             # ever calls it on textblocks): tied like the other planners, and through `retypedChildren`
@@ -371,6 +508,7 @@ def run(ctx):
                 tr = Transform(d)
                 del _FIT_LOG[:]
                 del _CLEAR_LOG[:]
+                del _CLEAR_LOG2[:]
                 old_before = doc_tokens(d)      # the token picture of the input, taken before the operation runs
                 st, val, added = ops.run_op(tr, thunk)
                 fit_log = list(_FIT_LOG)
@@ -396,8 +534,21 @@ def run(ctx):
                     reqs.append(preq)
                     metas.append((replay, ("plan", name, st, [info.step(s) for s in tr.steps] if st == "ok" else None,
                                            info.node(tr.doc) if st == "ok" else None)))
+                    if name == "set_block_type":
+                        reqs.append({"op": "plainType", "s": info.lean_id, "type": info.nid[args[2].name]})
+                        metas.append((replay, ("plain", plain_inline(args[2]), len(fit_log))))
+                    if bundled and name in ("set_node_markup", "set_block_type", "clear_incompatible"):
+                        # the same planner with the Fitter *model* plugged in (lean/PM/TypePlanFit.lean): no recorded answers
+                        # are sent; the Fitter model is tied exactly on the bundled-family schemas (C11)
+                        freq = {k_: v_ for k_, v_ in preq.items() if k_ != "fits"}
+                        freq["op"] = "planNodeOpF"
+                        reqs.append(freq)
+                        metas.append((replay, ("planF", name, st, [info.step(s) for s in tr.steps] if st == "ok" else None,
+                                               info.node(tr.doc) if st == "ok" else None, len(fit_log),
+                                               bool(fit_log) and fit_log[-1][0] == "err" and st != "ok")))
                 if st != "hang":
                     kept_requests(list(_CLEAR_LOG), replay)
+                    keeps_requests(list(_CLEAR_LOG2), replay)
                 if name == "clear_incompatible":
                     continue    # no property statement of its own: the direct calls only feed the two ties above
                 if st in ("internal", "hang"):
